@@ -13,4 +13,6 @@ Definition PunchPacketHello : N := 1%N.
 Definition PunchPacketAck : N := 2%N.
 Definition defaultPunchEventBuffer : nat := 16%nat.
 Definition defaultServerPunchEventBuffer : nat := 16%nat.
+Definition defaultPunchTimeout : Z := (10000000000)%Z.
+Definition defaultPunchInterval : Z := (100000000)%Z.
 Definition punchMagic := (cons Coq.Init.Byte.x48 (cons Coq.Init.Byte.x59 (cons Coq.Init.Byte.x52 (cons Coq.Init.Byte.x4c (cons Coq.Init.Byte.x4d (cons Coq.Init.Byte.x76 (cons Coq.Init.Byte.x31 (cons Coq.Init.Byte.x00 nil)))))))).
